@@ -223,6 +223,11 @@ type EnvB struct {
 	lastBlockEvents []abci.Event
 	lastEnd         []abci.Event
 	AppHashes       [][]byte
+	// RestartAfter > 0: the node's process is restarted after that many commits (see World.Restart).
+	RestartAfter int
+	// Simulate: every transaction is first run through the node's gas-estimation entry point (BaseApp.Simulate, which
+	// executes the handlers on a throw-away branch of the check state), as a node serving client queries does.
+	Simulate bool
 	// Obs is the observation log used by the determinism check: per transaction code/gas/events/data, per block
 	// EndBlock events, AppHash and BeginBlock events, in order.
 	Obs []string
@@ -366,6 +371,12 @@ func (e *EnvB) DeliverSigned(msgs []sdk.Msg, signers []Acct) TxResult {
 	if err != nil {
 		return TxResult{Err: err, Stage: "sign", Code: 1}
 	}
+	if e.Simulate {
+		func() {
+			defer func() { _ = recover() }()
+			_, _, _ = e.w.App.Simulate(bz)
+		}()
+	}
 	r := e.w.App.DeliverTx(abci.RequestDeliverTx{Tx: bz})
 	e.Obs = append(e.Obs, fmt.Sprintf("tx h=%d code=%d gasUsed=%d gasWanted=%d data=%x", e.height, r.Code, r.GasUsed, r.GasWanted, r.Data), "tx-events "+fmtEvents(r.Events))
 	out := TxResult{Code: r.Code, Log: r.Log, GasUsed: r.GasUsed, GasWanted: r.GasWanted, Events: r.Events}
@@ -412,6 +423,10 @@ func (e *EnvB) NextBlock(dT time.Duration) (bp *BlockPanic) {
 	e.Obs = append(e.Obs, fmt.Sprintf("endblock-events h=%d %s", e.height, fmtEvents(er.Events)), fmt.Sprintf("apphash h=%d %x", e.height, cr.Data))
 	e.height++
 	e.time = e.time.Add(dT)
+	if e.RestartAfter > 0 && len(e.AppHashes) == e.RestartAfter {
+		phase = "restart"
+		e.w.Restart()
+	}
 	phase = "BeginBlock"
 	h = e.height
 	br := e.w.App.BeginBlock(e.w.BeginReq(e.w.Header(e.height, e.time)))
